@@ -108,7 +108,9 @@ def same_body(fa, a, fb, b):
     except (vg.Unsupported, RecursionError):
         return canon_mir(a.mir) == canon_mir(b.mir) and canon_mir(a.promoted) == canon_mir(b.promoted), "canonicalised MIR identical"
 
-def transfer(ctx, rep, covered):
+MUL_DEPENDENT = {"C02", "C04", "C05", "C10", "C13", "C14", "C15", "C16", "C17", "C18", "C19"}   # rules that treat `*` as the conforming product
+
+def transfer(ctx, rep, covered, prop=None):
     """RB: the rules of a property are decided on the default-feature build; they carry over to the no_std
     build because every body they evaluated is the same there, the only difference being the fused
     multiply-add provider, which must be libm::fma(x, y, z) behind the crate's single wrapper."""
@@ -118,7 +120,12 @@ def transfer(ctx, rep, covered):
     sites_b = direct_fma_sites(fb)
     wrappers = sorted({s[0] for s in sites_b})
     bad = []
-    if not (len(wrappers) == 1 and all(s[1] == ALLOWED["B"] for s in sites_b)):
+    wa = {s[0] for s in direct_fma_sites(fa)}
+    # the provider matters to a property only if its rules evaluated the wrapper or rely on the product operators
+    uses_fma = prop in MUL_DEPENDENT or bool((wa | set(wrappers)) & set(covered))
+    if not uses_fma:
+        wrappers = []
+    elif not (len(wrappers) == 1 and all(s[1] == ALLOWED["B"] for s in sites_b)):
         bad.append(("fma-sites", "the no_std build reaches a fused multiply-add from %s (expected one wrapper calling libm::fma)" % (sites_b,), None))
     for w in wrappers:
         b = fb.get(w)
@@ -131,7 +138,7 @@ def transfer(ctx, rep, covered):
             ok = False
         if not ok:
             bad.append(("fma-wrapper", "the crate's fma wrapper in the no_std build is not libm::fma(x, y, z) on every path", b))
-    all_w = {s[0] for s in direct_fma_sites(fa)} | set(wrappers)
+    all_w = wa | set(wrappers)
     n = 0
     for i in sorted(covered):
         if i.startswith("closure:") or i in all_w:
@@ -157,5 +164,5 @@ def transfer(ctx, rep, covered):
     for key, msg, b in bad:
         rep.fail("RB", "configuration transfer: " + key, "transfer:" + key, msg, where=H.where(b) if b is not None else None)
     if not bad:
-        rep.ok("RB", "configuration transfer (%d bodies, constants, fma wrapper)" % n, detail="bodies evaluated by this check are identical in the no_std build; provider there is libm::fma(x, y, z)", nontrivial=False)
+        rep.ok("RB", "configuration transfer (%d bodies, constants%s)" % (n, ", fma wrapper" if uses_fma else ""), detail="bodies evaluated by this check are identical in the no_std build; provider there is libm::fma(x, y, z)", nontrivial=False)
     rep.analysed["transfer_bodies"] = n
